@@ -252,6 +252,20 @@ def gen_input(rng, kind, size):
             ctr += 1 + rng.randrange(4)
             rec += ctr.to_bytes(4, "little") + bytes(rng.choice(b"\x00\x01\x02\xff") for _ in range(12))
         return head + a + bytes(rec[:rest - rest // 2])
+    if kind == "matchlead":  # block 1: text ending with a few tiles of noise; every later block STARTS with ~1500 of those tiles in
+        #              random order (hundreds of consecutive sequences without a literal), then fresh text: with
+        #              ZSTD_c_targetCBlockSize the first sub-block carries no literals, later ones need the block's Huffman table
+        piece = rng.choice([24, 32, 32, 40])
+        nt = rng.choice([6, 8, 12])
+        first = min(size, 131072)
+        b1 = gen_input(rng, "text", max(0, first - nt * piece)) + rng.randbytes(min(first, nt * piece))
+        out = bytearray(b1[:first])
+        tiles = [bytes(out[first - (k + 1) * piece:first - k * piece]) for k in range(nt)] if first >= nt * piece else [b"ab"]
+        while len(out) < size:
+            for _ in range(rng.choice([1200, 1500, 2000])):
+                out += rng.choice(tiles)
+            out += gen_input(rng, "text", 131072 - (len(out) % 131072))
+        return bytes(out[:size])
     if kind == "nearrle":    # runs of one byte with a single deviation inside the last 32 bytes of a block / of the input
         a = rng.randrange(256)
         out = bytearray([a]) * size
